@@ -96,7 +96,11 @@ def imtlg_balance(J: np.ndarray) -> float:
     except np.linalg.LinAlgError:
         return 0.0
     den = float(np.abs(v).sum())
-    return abs(float(v.sum())) / den if den > 0 else 1.0
+    # v can vanish altogether (e.g. a tall one-column matrix with sum_i j_i |j_i| = 0): the weights v / sum(v) are then 0/0
+    smax2 = float(np.linalg.norm(nz, 2)) ** 2
+    if den * smax2 <= 1e-6 * float(np.linalg.norm(nz, axis=1).sum()):
+        return 0.0
+    return abs(float(v.sum())) / den
 
 
 def base_tolerance(spec: dict, dtype: str, J: np.ndarray, w_norm: float, x_norm: float) -> float:
